@@ -105,7 +105,15 @@ def run(case, name, row=None, shift=0.0):
     """-> list of floats (one per set) | error kind"""
     with np.errstate(all="ignore"):
         try:
-            d = getattr(fl, name)(int(case["r"]))
+            r = int(case["r"])
+            if r % 2 == 1:
+                # a history (every other resolution): the defuzzifier object has been used over the same range at another
+                # resolution, then `resolution` is assigned; the result must be the point for the CURRENT resolution
+                d = getattr(fl, name)(r + 3 if r < 100 else 7)
+                d.defuzzify(build(case, row, shift), float(case["lo"]) + shift, float(case["hi"]) + shift)
+                d.resolution = r
+            else:
+                d = getattr(fl, name)(r)
             v = d.defuzzify(build(case, row, shift), float(case["lo"]) + shift, float(case["hi"]) + shift)
             return [float(t) for t in np.atleast_1d(np.asarray(v, dtype=float)).ravel()]
         except ValueError:
